@@ -751,11 +751,11 @@ class XPathToken(Token[ta.XPathTokenType]):
             if isinstance(_tzinfo, Timezone) and isinstance(timezone, Timezone):
                 if isinstance(_item, DateTime):
                     _item += timezone.offset
-                elif not isinstance(item, Date):
+                elif isinstance(_item, Date):
+                    # The date of the starting instant in the new timezone
+                    _item = type(_item).fromdelta(_item.todelta() + timezone.offset)
+                else:
                     _item += timezone.offset - _tzinfo.offset
-                elif timezone.offset < _tzinfo.offset:
-                    _item -= timezone.offset - _tzinfo.offset
-                    _item -= DayTimeDuration.fromstring('P1D')
         except OverflowError as err:
             if isinstance(context, XPathSchemaContext):
                 return _item
